@@ -1,10 +1,11 @@
 #!/bin/bash
-# multiseed.sh <first> <last> [tier]: every claimed property's check under a range of VERIF_SEED values on the unchanged tree.
+# multiseed.sh <first> <last> [tier] ["P1 P2 ..."]: every claimed property's check under a range of VERIF_SEED values on the unchanged tree.
 # Anything but "OK" lines is an alarm that needs triage (a genuine defect, or a mistake in the check).
 cd "$(dirname "$0")/.."
 T=${3:-quick}
+PROPS=${4:-"C06 C10 C13 C14 C15 C16 C17 C18"}
 for S in $(seq $1 $2); do
-  for P in C06 C10 C13 C14 C15 C16 C17 C18; do
+  for P in $PROPS; do
     OUT=$(VERIF_SEED=$S ./check $P --tier $T 2>&1 | grep -E "^OK|^VIOLATION|^violation|HARNESS" | head -4 | cut -c1-260)
     echo "seed $S $P: $OUT"
   done
